@@ -5,8 +5,8 @@ ID = "C16"
 LEVEL = "exploration"
 ENGINE = "E1 product enumerator"
 TECHNIQUE = "exhaustive insertion of every catalogued unsupported statement at every statement boundary of every base script x silent x modes; silent/loud differential"
-LEVEL_TEXT = ("Each of 37 unsupported statements (5 pre-filtered by leading word, 32 rejected by the grammar) is inserted at every "
-              "statement boundary of 5 supported scripts, under silent True/False and 3 modes (15 in thorough); plus every generated and "
+LEVEL_TEXT = ("Each of 49 unsupported statements (12 pre-filtered by leading word, 37 rejected by the grammar; upper / lower case, one or several lines) is inserted at every "
+              "statement boundary of 6 supported scripts, under silent True/False and 3 modes (15 in thorough; thorough also every PAIR of unsupported statements at any two boundaries); plus every generated and "
               "corpus script under silent=False, and the unknown-mode names. All executed on the real library.")
 LEVEL_NOTE = ("'Unsupported' is the frozen catalogue below; 'supported DDL' is the generated scripts plus corpus scripts that the "
               "tests themselves parse with silent=False or whose silent=True result is non-empty and complete (see rule).")
@@ -23,7 +23,10 @@ SUP = [
     ["CREATE TABLE k (a int, CONSTRAINT ck CHECK (a > 1));", "CREATE DOMAIN s1.d1 AS varchar(10);", "CREATE BIGFILE TABLESPACE ts1;"],
 ]
 SUP.append(["CREATE TABLE n1 (a int NOT NULL, b varchar(10))", "CREATE TABLE n2 (c int)", "CREATE UNIQUE INDEX ni ON n1 (a)"])  # no ';' terminators
-PRE = ["INSERT INTO t1 VALUES (1, 'x');", "GRANT SELECT ON t1 TO joe;", "USE db1;", "GO", "DELETE FROM t1;"]
+PRE = ["INSERT INTO t1 VALUES (1, 'x');", "GRANT SELECT ON t1 TO joe;", "USE db1;", "GO", "DELETE FROM t1;",
+       # the same classes in lower case and spread over several lines
+       "insert into t1 values (1, 'x');", "grant select on t1 to joe;", "use db1;", "go", "delete from t1;",
+       "INSERT INTO t1\nVALUES (1, 'x');", "INSERT INTO t1 (a, b)\n  SELECT a, b FROM t2;"]
 GRAM = ["SELECT * FROM t1 WHERE a = 1;", "CREATE VIEW v1 AS SELECT a, b FROM t1 WHERE a > 1;",
         "CREATE FUNCTION f() RETURNS int AS $$ select 1 $$ LANGUAGE sql;", "EXEC sp_rename 'a', 'b';", "VACUUM;", "ANALYZE t1;",
         "ALTER TABLE t1 OWNER TO joe;", "CREATE EXTENSION hstore;", "CREATE ROLE joe;", "WITH x AS (SELECT 1) SELECT * FROM x;",
@@ -31,7 +34,10 @@ GRAM = ["SELECT * FROM t1 WHERE a = 1;", "CREATE VIEW v1 AS SELECT a, b FROM t1 
         "CREATE TABLE t AS SELECT * FROM u;", "CALL p(1);", "LOCK TABLE t;", "COPY t FROM 's3://x';", "COMMIT;", "BEGIN;",
         "TRUNCATE TABLE t1;", "COMMENT ON TABLE t1 IS 'x';", "UPDATE t1 SET a = 2;", "DROP INDEX i1;", "ALTER SEQUENCE q RESTART;",
         "CREATE TRIGGER tr BEFORE INSERT ON t1 FOR EACH ROW EXECUTE PROCEDURE f();", "EXPLAIN SELECT 1;", "CREATE USER joe;",
-        "CREATE POLICY p ON t;", "SHOW TABLES;", "DESCRIBE t1;", "ROLLBACK;", "SAVEPOINT s;", "REVOKE ALL ON t1 FROM joe;"]
+        "CREATE POLICY p ON t;", "SHOW TABLES;", "DESCRIBE t1;", "ROLLBACK;", "SAVEPOINT s;", "REVOKE ALL ON t1 FROM joe;",
+        # lower case / several lines / OR REPLACE
+        "select * from t1 where a = 1;", "create view v1 as select a from t1;", "SELECT a,\n  b\nFROM t1\nWHERE a = 1;",
+        "CREATE VIEW v1 AS\n  SELECT a\n  FROM t1;", "CREATE OR REPLACE VIEW v AS SELECT 1;"]
 BAD_MODES = ["", "SQL", "Hql", "postgresql", "none", "bigquery ", "sql\n"]
 ALL_MODES = ["redshift", "spark_sql", "mysql", "bigquery", "mssql", "databricks", "sqlite", "vertics", "ibm_db2", "postgres",
              "oracle", "hql", "snowflake", "athena", "sql"]
@@ -55,6 +61,17 @@ def gen_cases(tier):
                 for pos in boundaries(lines):
                     for m in modes:
                         cases.append({"kind": "ins", "sup": si, "grp": grp, "u": ui, "pos": pos, "mode": m})
+    if tier == "thorough":
+        # two unsupported statements at any two boundaries (the second position counted in the script after the first insertion)
+        allu = [("pre", i) for i in range(len(PRE))] + [("gram", i) for i in range(len(GRAM))]
+        for si, lines in enumerate(SUP):
+            bs = boundaries(lines)
+            for (g1, u1) in allu:
+                for (g2, u2) in allu:
+                    for p1 in bs:
+                        for p2 in bs:
+                            if p2 >= p1:
+                                cases.append({"kind": "ins2", "sup": si, "grp": g1, "u": u1, "pos": p1, "grp2": g2, "u2": u2, "pos2": p2, "mode": "sql"})
     for si in range(len(SUP)):
         for m in ALL_MODES:
             cases.append({"kind": "sup", "sup": si, "mode": m})
@@ -76,8 +93,11 @@ def gen_cases(tier):
 
 def script(case):
     lines = list(SUP[case["sup"]])
-    if case["kind"] == "ins":
+    if case["kind"] in ("ins", "ins2"):
         u = (PRE if case["grp"] == "pre" else GRAM)[case["u"]]
+        if case["kind"] == "ins2":  # the later position first, so that the earlier index stays valid
+            u2 = (PRE if case["grp2"] == "pre" else GRAM)[case["u2"]]
+            lines = lines[:case["pos2"]] + [u2] + lines[case["pos2"]:]
         lines = lines[:case["pos"]] + [u] + lines[case["pos"]:]
     return "\n".join(lines)
 
@@ -124,7 +144,7 @@ def evaluate(case):
         diffs.append(diff("silent=True", "silent-raises", "no exception", s[1:3]))
     elif entities(s[1]) != entities(base[1]):
         diffs.append(diff("silent=True result vs script without the insertion", "silent-result-differs", short(base[1]), short(s[1])))
-    if case["grp"] == "gram":
+    if case["grp"] == "gram" or case.get("grp2") == "gram":
         if not (l[0] == "exc" and l[1] == "DDLParserError" and l[3]):
             diffs.append(diff("silent=False", "loud-did-not-raise-DDLParserError", "DDLParserError", short(l)))
     else:
@@ -133,7 +153,7 @@ def evaluate(case):
                 diffs.append(diff("silent=False", "loud-wrong-exception", "DDLParserError or same result", short(l)))
         elif l != s:
             diffs.append(diff("silent=False vs silent=True", "silent-loud-differ", short(s), short(l)))
-    return {"diffs": diffs, "nontrivial": True, "outcome": "%s:%s" % (case["grp"], l[0])}
+    return {"diffs": diffs, "nontrivial": True, "outcome": "%s%s:%s" % (case["grp"], "+" + case["grp2"] if "grp2" in case else "", l[0])}
 
 
 def features(case):
@@ -141,13 +161,13 @@ def features(case):
 
 
 def describe(case):
-    if case["kind"] in ("ins", "sup"):
+    if case["kind"] in ("ins", "ins2", "sup"):
         return {"ddl": script(case), "mode": case["mode"], "kind": case["kind"]}
     return {k: (v[:300] if isinstance(v, str) else v) for k, v in case.items()}
 
 
 def snippet(case):
-    if case["kind"] in ("ins", "sup"):
+    if case["kind"] in ("ins", "ins2", "sup"):
         return _snip(script(case), {"silent": False}, {"output_mode": case["mode"]}) + "# and with silent=True\n"
     if case["kind"] == "corpus":
         return _snip(case["ddl"], dict(case["ctor"], silent=False), {"output_mode": case["mode"]})
